@@ -441,6 +441,52 @@ def run(ctx):
     except (TypeError, ValueError, IndexError, AttributeError) as e:
         ctx.violation("D/multiplication/inner/raises", "multiplication_inner", params2, "raised %s: %s" % (type(e).__name__, e))
     ctx.concrete("multiplication_inner", "multiplication_inner", params2)
+    # ---------------- (E) projections of a callable (jit-style and vectorised) == direct quadrature of f * psi_i
+    ABS.reset()
+    gE = W.symgrid("T9", tag="e", geometry="vertices")
+    gdE = gE.data()
+    from bempp_cl.api.assembly.grid_function import callable as bcallable
+
+    Ff = z3.Function("Fcb", *([z3.RealSort()] * 7), z3.RealSort())
+    Fi = z3.Function("Fcb_im", *([z3.RealSort()] * 7), z3.RealSort())
+
+    def Fval(x, n, dom, cplx):
+        a = [z3.simplify(term(c), som=True, mul_to_power=False) for c in list(x) + list(n)] + [z3.RealVal(int(dom))]
+        return SC(SR(Ff(*a)), SR(Fi(*a))) if cplx else SR(Ff(*a))
+
+    for cplx in (False, True):
+        def f_scalar(x, n, domain_index, res, cplx=cplx):
+            res[0] = Fval(x, n, domain_index, cplx)
+
+        def f_vec(x, n, domain_index, res, cplx=cplx):
+            for j in range(x.shape[1]):
+                res[0, j] = Fval(x[:, j], n[:, j], domain_index[j], cplx)
+
+        for kind, deg, opts in (("DP", 1, {"segments": [1]}), ("P", 1, {"segments": [1, 2], "include_boundary_dofs": True, "swapped_normals": [2]})):
+            spE = b.function_space(gE, kind, deg, **opts)
+            spec = np.empty(spE.global_dof_count, dtype=object)
+            spec.fill(SC(ZERO, ZERO) if cplx else ZERO)
+            for el in np.flatnonzero(spE.support):
+                vv = [gdE.vertices[:, int(gdE.elements[i, el])] for i in range(3)]
+                nrm = [gdE.normals[el][d_] * int(spE.normal_multipliers[el]) for d_ in range(3)]
+                lb = local_basis(spE, el)
+                for q in range(nq):
+                    u_, v_ = pts[0, q], pts[1, q]
+                    xq = [vv[0][d_] * (ONE - u_ - v_) + vv[1][d_] * u_ + vv[2][d_] * v_ for d_ in range(3)]
+                    fv = Fval(xq, nrm, gdE.domain_indices[el], cplx)
+                    for i in range(len(lb)):
+                        gi = int(spE.local2global[el, i])
+                        spec[gi] = spec[gi] + fv * (peval(lb[i][0], u_, v_) * wts[q] * gdE.integration_elements[el])
+            for label, fun in (("jit", bcallable(f_scalar, complex=cplx, jit=True)), ("vectorized", bcallable(f_vec, complex=cplx, vectorized=True))):
+                paramsE = {"mesh": "T9", "kind": kind, "deg": deg, "opts": opts, "callable": label, "complex": cplx, "order": order}
+                try:
+                    got = b.GridFunction(spE, fun=fun, dual_space=spE).projections()
+                    cl = [f_ for _, f_ in W.entries_eq(np.asarray(got, dtype=object).ravel(), spec)]
+                    names = ABS.atoms_in(cl)
+                    ctx.prove("E/callable/%s/%s%d/%s" % (label, kind, deg, "complex" if cplx else "real"), z3.And(*cl), [a_ > 0 for a_ in ABS.sqrt_args(names)], family="callable_projection", params=paramsE, abs_cons="cone", group="E-callable-%s" % label)
+                except (TypeError, ValueError, IndexError, AttributeError) as e:
+                    ctx.violation("E/callable/%s/%s%d/raises" % (label, kind, deg), "callable_projection", paramsE, "raised %s: %s" % (type(e).__name__, str(e)[:160]))
+    ctx.concrete("callable_projection", "callable_projection", {"mesh": "T9", "order": order})
     ctx.twin("twin/multiplication-wrong-element", eq_formula(ONE * gd.integration_elements[1], ONE * gd.integration_elements[0]), [], abs_cons=False)
 
 
@@ -552,6 +598,38 @@ def concrete(family, params):
         gap = max(worst.values())
         k = max(worst, key=worst.get)
         return {"gap": gap if gap > 1e-10 else 0.0, "detail": worst, "key": "gf_%s/%s" % (k, spc[0])}
+    if family == "callable_projection":
+        # a smooth function of (x, n, domain) through every callable flavour against direct quadrature, on segment spaces
+        vv = np.asarray(v, dtype=float) + 0.05 * np.random.RandomState(1).rand(*np.asarray(v).shape)
+        gq = b.Grid(vv, np.asarray(e), np.asarray(d, dtype="uint32"))
+        gdq = gq.data()
+
+        def fs(x, n, dom, res):
+            res[0] = n[0] * (1 + 2 * x[2]) + n[2] * (3 - x[1]) + 0.5 * dom + x[0] * n[1]
+
+        def fvz(x, n, dom, res):
+            res[0, :] = n[0] * (1 + 2 * x[2]) + n[2] * (3 - x[1]) + 0.5 * dom + x[0] * n[1]
+
+        from bempp_cl.api.assembly.grid_function import callable as bcallable
+
+        worst, det = 0.0, ""
+        for kind, deg, opts in (("DP", 1, {"segments": [1]}), ("P", 1, {"segments": [1, 2], "include_boundary_dofs": True, "swapped_normals": [2]}), ("DP", 0, {"segments": [2]})):
+            spq = b.function_space(gq, kind, deg, **opts)
+            spec = np.zeros(spq.global_dof_count)
+            for el in np.flatnonzero(spq.support):
+                bb = _np_basis(spq, el, pts)[0]
+                cor = gq.vertices[:, gq.elements[:, el]]
+                xq = cor[:, [0]] * (1 - pts[0] - pts[1]) + cor[:, [1]] * pts[0] + cor[:, [2]] * pts[1]
+                nn = gq.normals[el] * spq.normal_multipliers[el]
+                fvals = nn[0] * (1 + 2 * xq[2]) + nn[2] * (3 - xq[1]) + 0.5 * gq.domain_indices[el] + xq[0] * nn[1]
+                for i in range(bb.shape[0]):
+                    spec[spq.local2global[el, i]] += np.sum(bb[i] * fvals * w) * gdq.integration_elements[el]
+            for label, fun in (("jit", bcallable(fs, jit=True)), ("nojit", bcallable(fs, jit=False)), ("vectorized", bcallable(fvz, vectorized=True))):
+                got = b.GridFunction(spq, fun=fun, dual_space=spq).projections()
+                gap = float(np.max(np.abs(got - spec)) / np.max(np.abs(spec)))
+                if gap > worst:
+                    worst, det = gap, label
+        return {"gap": worst if worst > 1e-10 else 0.0, "rel_err": worst, "key": "callable_projection/%s" % (det if worst > 1e-10 else "")}
     if family == "multiplication_inner":
         rw = b.function_space(g, "RWG", 0, include_boundary_dofs=True)
         dq = b.function_space(g, "DP", 0)
